@@ -168,14 +168,22 @@ func fullTag(fi *FuncInfo, id string) bool {
 	return contains(fi.Contract.FullProps, id)
 }
 
+// rangesOverBuiltinMap: the function iterates over a map in some way - a range over a built-in map, sortedMap(m), or
+// maps.Keys / maps.Values / maps.All: the order of what it produces is a question of determinism.
 func rangesOverBuiltinMap(fi *FuncInfo) bool {
 	found := false
 	ast.Inspect(fi.Decl.Body, func(n ast.Node) bool {
-		if rs, ok := n.(*ast.RangeStmt); ok {
-			if t := fi.Pkg.TypesInfo.TypeOf(rs.X); t != nil {
+		switch y := n.(type) {
+		case *ast.RangeStmt:
+			if t := fi.Pkg.TypesInfo.TypeOf(y.X); t != nil {
 				if _, isMap := t.Underlying().(*types.Map); isMap {
 					found = true
 				}
+			}
+		case *ast.CallExpr:
+			switch exprString(y.Fun) {
+			case "sortedMap", "maps.Keys", "maps.Values", "maps.All":
+				found = true
 			}
 		}
 		return true
